@@ -130,8 +130,13 @@ func runC11(res *Result, tier string, seed int64, replay string) {
 			"navbar":    `<mj-navbar hamburger="hamburger"><mj-navbar-link href="/a" font-family="Montserrat">A</mj-navbar-link></mj-navbar>`,
 			"carousel":  `<mj-carousel><mj-carousel-image src="a.png"/><mj-carousel-image src="b.png"/></mj-carousel>`,
 			"fluid":     `<mj-image src="i.png" fluid-on-mobile="true"/>`,
-			"social":    `<mj-social font-family="Droid Sans"><mj-social-element name="facebook" href="h" font-family="Ubuntu">F</mj-social-element></mj-social>`,
-			"button":    `<mj-button href="u" font-family="Lato">B</mj-button>`,
+			// degenerate numbers of children: one image only, and such a carousel next to an ordinary one
+			"carousel-one-image":          `<mj-carousel><mj-carousel-image src="a.png"/></mj-carousel>`,
+			"carousel-one-image-and-more": `<mj-carousel><mj-carousel-image src="a.png"/></mj-carousel><mj-carousel><mj-carousel-image src="b.png"/><mj-carousel-image src="c.png"/><mj-carousel-image src="d.png"/></mj-carousel>`,
+			"accordion-one-empty-element": `<mj-accordion><mj-accordion-element></mj-accordion-element></mj-accordion>`,
+			"navbar-one-link":             `<mj-navbar hamburger="hamburger"><mj-navbar-link href="/a">A</mj-navbar-link></mj-navbar>`,
+			"social":                      `<mj-social font-family="Droid Sans"><mj-social-element name="facebook" href="h" font-family="Ubuntu">F</mj-social-element></mj-social>`,
+			"button":                      `<mj-button href="u" font-family="Lato">B</mj-button>`,
 		}
 		places := map[string][2]string{
 			"column":       {`<mj-section><mj-column>`, `</mj-column></mj-section>`},
